@@ -137,6 +137,9 @@ class Register:
         try:
             if self.name != other.name:
                 return False
+            if self.fundamental != other.fundamental:
+                # A register never equals an alias, even one of the same size
+                return False
             if self.fundamental:
                 return self.size == other.size
             else:
